@@ -373,6 +373,17 @@ def direct_predicates(sc, out):
             else:
                 k += 2
         rep = lambda: dict(scenario=sc, blocks=out["blocks"], arrivals=out["obs"][:n + 1])
+        # ACCEPTED (addBlock returns nil) only if the signature verifies and the block is not future now
+        if ob["r"] == "nil":
+            if not b["sig_real"]:
+                fails.append(("C09:bad-signature-reported-accepted",
+                              "addBlock returned nil for block %d whose signature does not verify" % i, rep()))
+            fut_now = all(next_index(b["ts"] // 10 ** 6, ivms) >= next_index(now // 10 ** 6, ivms) + 2
+                          for now in (ob["now0"], ob["now1"]))
+            prev_store = out["obs"][n - 1]["store"] if n > 0 else [0]
+            if fut_now and i not in prev_store:
+                fails.append(("C09:future-block-reported-accepted",
+                              "addBlock returned nil for block %d which is two or more slots ahead of the clock" % i, rep()))
         for where, ids in (("main chain", ob["main"]), ("chain DB", ob["store"]), ("orphan pool", ob["orph"])):
             for j in ids:
                 if j == 0:
